@@ -97,6 +97,7 @@ def lin_str(f):
 def single_assign_subst(func):
     """names assigned exactly once in the function by a plain `x = expr` (not in a loop target, not augmented)"""
     counts, exprs = {}, {}
+    texts = {}
     if isinstance(func, (ast.FunctionDef, ast.AsyncFunctionDef)):
         a_ = func.args
         for p_ in a_.posonlyargs + a_.args + a_.kwonlyargs + [x for x in (a_.vararg, a_.kwarg) if x is not None]:
@@ -105,9 +106,12 @@ def single_assign_subst(func):
         if isinstance(n, ast.Assign):
             for t in n.targets:
                 for nm in _target_names(t):
+                    if isinstance(t, ast.Name) and texts.get(nm) == ast.dump(n.value) and counts.get(nm, 0) >= 1:
+                        continue        # the same binding written in two branches (left by an inlined helper) is one definition
                     counts[nm] = counts.get(nm, 0) + 1
                 if isinstance(t, ast.Name):
                     exprs[t.id] = n.value
+                    texts.setdefault(t.id, ast.dump(n.value))
         elif isinstance(n, (ast.AugAssign, ast.AnnAssign)):
             for nm in _target_names(n.target):
                 counts[nm] = counts.get(nm, 0) + 2
